@@ -213,7 +213,7 @@ func genCase(t *rapid.T) tcase {
 }
 
 func TestGenerated(t *testing.T) {
-	rt.Check(t, 5000, 400000, func(t *rapid.T) {
+	rt.Check(t, 5000, 1200000, func(t *rapid.T) {
 		c := genCase(t)
 		if msg := run(c); msg != "" {
 			t.Fatalf("%s\ncase: %s", msg, c.render())
